@@ -76,6 +76,69 @@ def ref_text_chain_code(text):
     return hashlib.blake2b(enc, digest_size=32).digest() if len(enc) > 32 else enc.ljust(32, b"\x00")
 
 
+_B58 = "123456789ABCDEFGHJKLMNPQRSTUVWXYZabcdefghijkmnopqrstuvwxyz"
+
+
+def ref_ss58(pub, fmt):
+    """SS58 from its definition, with hashlib only: base58(prefix ++ 32-byte key ++ Blake2b-512("SS58PRE" ++ prefix ++ key)[:2]); the prefix
+    is one byte for formats below 64, the two-byte form above"""
+    import hashlib
+    assert len(pub) == 32 and 0 <= fmt < 16384
+    pre = bytes([fmt]) if fmt < 64 else bytes([((fmt & 0xFC) >> 2) | 0x40, (fmt >> 8) | ((fmt & 0x03) << 6)])
+    data = pre + pub + hashlib.blake2b(b"SS58PRE" + pre + pub, digest_size=64).digest()[:2]
+    num, out = int.from_bytes(data, "big"), ""
+    while num:
+        num, r = divmod(num, 58)
+        out = _B58[r] + out
+    return "1" * (len(data) - len(data.lstrip(b"\x00"))) + out
+
+
+def _zero_class(pub):
+    """which of the output-dependent byte classes a 32-byte public key falls in (a key is 32 bytes whatever they are)"""
+    if pub[:2] == b"\x00\x00":
+        return "two-leading-zero-bytes"
+    if pub[0] == 0:
+        return "leading-zero-byte"
+    if pub[-1] == 0:
+        return "trailing-zero-byte"
+    if pub[0] == 1:
+        return "leading-one-byte"
+    return None
+
+
+def zero_byte_roots(rng, want, tries):
+    """seeds whose sr25519 root public key has a zero first byte / zero last byte (1 key in 128 / 256; two zero bytes when `tries` allows),
+    found with the sr25519 bindings directly -> [(class, seed, public key, secret key)]. (A Ristretto encoding is an even little-endian
+    number, so the first byte 0x01 — a class of the ed25519 flavour below — does not occur here.)"""
+    out, have = [], {}
+    for _ in range(tries):
+        seed = rng.getrandbits(256).to_bytes(32, "big")
+        pub, sec = (bytes(x) for x in sr25519.pair_from_seed(seed))
+        c = _zero_class(pub)
+        if c and have.get(c, 0) < want.get(c, 0):
+            have[c] = have.get(c, 0) + 1
+            out.append((c, seed, pub, sec))
+            if all(have.get(k, 0) >= v for k, v in want.items()):
+                break
+    return out
+
+
+def zero_byte_children(rng, seed, want, tries):
+    """numeric junctions under `seed` whose soft / hard CHILD public key falls in a zero-byte class, found with the sr25519 bindings directly
+    (a decimal junction below 2^64 has the little-endian integer, zero-padded to 32 bytes, as chain code) -> [(class, junction text)]"""
+    pub0, sec0 = (bytes(x) for x in sr25519.pair_from_seed(seed))
+    out, have = [], {}
+    start = rng.getrandbits(40)
+    for n_ in range(start, start + tries):
+        cc = n_.to_bytes(32, "little")
+        for pre, child in (("/", bytes(sr25519.derive_pubkey((cc, pub0), b"")[1])), ("//", bytes(sr25519.hard_derive_keypair((cc, pub0, sec0), b"")[1]))):
+            c = _zero_class(child)
+            if c and c != "leading-one-byte" and have.get((pre, c), 0) < want:
+                have[(pre, c)] = have.get((pre, c), 0) + 1
+                out.append((c, pre + str(n_)))
+    return out
+
+
 def rand_path(rng):
     n = rng.choice([0, 1, 1, 2, 3, 5])
     return "".join(rng.choice(["/", "//"]) + rng.choice(JUNCTIONS) for _ in range(n))
@@ -185,6 +248,25 @@ def gen(rng, tier):
             key = bytes(sr25519.pair_from_seed(seed)[0]) if i % 8 else bytes(31)
         k = rng.choice([99, 99, 0, 1, 2])
         yield Case("substrate", [kind, hx(key), coin, tx(path), k], "wallet-" + kind)
+    # directed, output-dependent: public keys with a zero first byte (or two), a zero last byte — a key is 32 bytes whatever
+    # they are, and its address is the SS58 of all 32. Roots (from a seed, from the private key, public-only) on every coin in turn, and
+    # soft / hard children reached through a junction (also from the object converted to public-only first)
+    quick = tier == "quick"
+    roots = zero_byte_roots(rng, {"leading-zero-byte": 3 if quick else 14, "trailing-zero-byte": 1 if quick else 6, "two-leading-zero-bytes": 0 if quick else 1},
+                            6000 if quick else 400000)
+    for i, (c, seed, pub, sec) in enumerate(roots):
+        coins = [COINS[(i * 5 + j) % len(COINS)] for j in range(2)] if quick else COINS
+        for coin in coins:
+            yield Case("substrate", ["seed", hx(seed), coin, tx(""), 99], "root-key-" + c)
+        yield Case("substrate", ["pub", hx(pub), COINS[(i * 3 + 1) % len(COINS)], tx(""), 99], "root-key-" + c)
+        yield Case("substrate", ["priv", hx(sec), COINS[(i * 3 + 2) % len(COINS)], tx(""), 99], "root-key-" + c)
+    for i in range(1 if quick else 6):
+        seed = rng.getrandbits(256).to_bytes(32, "big")
+        for j, (c, junction) in enumerate(zero_byte_children(rng, seed, 1 if quick else 2, 700 if quick else 4000)):
+            coin = COINS[(i + j) % len(COINS)]
+            yield Case("substrate", ["seed", hx(seed), coin, tx(junction), 99], "child-key-" + c)
+            if not junction.startswith("//"):
+                yield Case("substrate", ["seed", hx(seed), coin, tx(junction), 0], "child-key-public-" + c)
 
 
 def relations(rng, tier, rpt):
@@ -290,6 +372,89 @@ def relations(rng, tier, rpt):
         want_hard = bytes(sr25519.hard_derive_keypair((cc, pub0, sec0), b"")[1])
         if hard != want_hard:
             rep("hard child through a text junction is not sr25519's child for the chain code of the text as given", "%s %s" % (seed.hex(), ascii("//" + t)), hard.hex(), want_hard.hex())
+    # the address clause against an independent SS58 (hashlib + local base58), for EVERY Substrate coin, on ordinary keys and on keys of the
+    # output-dependent byte classes (zero first byte, zero last byte; first byte 0x01 for ed25519): through the wallet (from seed, public-only, from the
+    # private key, a soft child), through the address encoder class with the coin's format given by hand, and decoded back; the ed25519
+    # flavour of the Substrate encoder likewise (its key object carries a 0x00 type prefix that is not part of the 32-byte key)
+    from bip_utils import SubstrateSr25519AddrEncoder, SubstrateSr25519AddrDecoder, SubstrateEd25519AddrEncoder, SubstrateEd25519AddrDecoder
+    quick = tier == "quick"
+    keys = []
+    for _ in range(2 if quick else 10):
+        sd_ = rng.getrandbits(256).to_bytes(32, "big")
+        keys.append(("ordinary", sd_) + tuple(bytes(x) for x in sr25519.pair_from_seed(sd_)))
+    keys += zero_byte_roots(rng, {"leading-zero-byte": 2 if quick else 8, "trailing-zero-byte": 1 if quick else 4}, 6000 if quick else 40000)
+    n_addr = 0
+    for ki, (kc, seed, pub, sec) in enumerate(keys):
+        for ci, coin_name in enumerate(COINS):
+            c = SubstrateCoins[coin_name]
+            ctx = Substrate.FromSeed(seed, c)
+            fmt = ctx.CoinConf().SS58Format()
+            want = ref_ss58(pub, fmt)
+            routes = [("Substrate.FromSeed(seed).PublicKey().ToAddress()", lambda: ctx.PublicKey().ToAddress()),
+                      ("Substrate.FromPublicKey(key).PublicKey().ToAddress()", lambda: Substrate.FromPublicKey(pub, c).PublicKey().ToAddress()),
+                      ("SubstrateSr25519AddrEncoder.EncodeKey(key, ss58_format=%d)" % fmt, lambda: SubstrateSr25519AddrEncoder.EncodeKey(pub, ss58_format=fmt))]
+            if (ki + ci) % 3 == 0 or not quick:
+                routes.append(("Substrate.FromPrivateKey(key).PublicKey().ToAddress()", lambda: Substrate.FromPrivateKey(sec, c).PublicKey().ToAddress()))
+            for rname, route in routes:
+                n += 1
+                n_addr += 1
+                try:
+                    got = route()
+                except Exception as ex:  # noqa
+                    got = "!" + type(ex).__name__
+                if got != want:
+                    rep("%s: %s is not the SS58 encoding of the 32-byte public key under the coin's format %d (%s key)" % (coin_name, rname, fmt, kc),
+                        "seed=%s public key=%s" % (seed.hex(), pub.hex()), got, want)
+                    break
+            else:
+                try:
+                    back = SubstrateSr25519AddrDecoder.DecodeAddr(want, ss58_format=fmt)
+                except Exception as ex:  # noqa
+                    back = ("!" + type(ex).__name__).encode()
+                if back != pub:
+                    rep("%s: SubstrateSr25519AddrDecoder does not decode the address of a %s key back to the key" % (coin_name, kc), "%s format %d" % (want, fmt), back.hex(), pub.hex())
+    # a soft child of every key class (the child key itself is checked against the bindings above; here: its address is the SS58 of it)
+    for kc, seed, pub, sec in keys[:4] if quick else keys:
+        c = SubstrateCoins[COINS[rng.randrange(len(COINS))]]
+        ch = Substrate.FromSeed(seed, c).ChildKey("/7")
+        cpub = ch.PublicKey().RawCompressed().ToBytes()
+        n += 1
+        got = _out(ch).split(" ")[-1]
+        if len(cpub) != 32 or got != tx(ref_ss58(cpub, ch.CoinConf().SS58Format())):
+            rep("%s: the address of a child is not the SS58 encoding of the child's public key" % c.name, "seed=%s /7 child key=%s" % (seed.hex(), cpub.hex()), got, "SS58 of the key")
+    try:
+        from nacl.bindings import crypto_sign_seed_keypair
+    except ImportError:
+        crypto_sign_seed_keypair = None
+    if crypto_sign_seed_keypair is not None:
+        eds, have = [], {}
+        for _ in range(4000 if quick else 40000):
+            pk = crypto_sign_seed_keypair(rng.getrandbits(256).to_bytes(32, "big"))[0]
+            kc = _zero_class(pk) or "ordinary"
+            if have.get(kc, 0) < (1 if quick else 4):
+                have[kc] = have.get(kc, 0) + 1
+                eds.append((kc, pk))
+                if quick and all(k in have for k in ("ordinary", "leading-zero-byte", "trailing-zero-byte", "leading-one-byte")):
+                    break
+        for kc, pk in eds:
+            for fmt in {0, 2, 42, 63, 64, 1284, 16383, rng.randrange(64, 16384)}:
+                want = ref_ss58(pk, fmt)
+                for form, arg in (("32 raw bytes", pk), ("0x00-prefixed bytes", b"\x00" + pk)):
+                    n += 1
+                    try:
+                        got = SubstrateEd25519AddrEncoder.EncodeKey(arg, ss58_format=fmt)
+                    except Exception as ex:  # noqa
+                        got = "!" + type(ex).__name__
+                    if got != want:
+                        rep("SubstrateEd25519AddrEncoder.EncodeKey(%s, ss58_format=%d) is not the SS58 encoding of the 32-byte key (%s key)" % (form, fmt, kc), pk.hex(), got, want)
+                        break
+                try:
+                    back = SubstrateEd25519AddrDecoder.DecodeAddr(want, ss58_format=fmt)
+                except Exception as ex:  # noqa
+                    back = ("!" + type(ex).__name__).encode()
+                if back != pk:
+                    rep("SubstrateEd25519AddrDecoder does not decode the address of a %s key back to the key" % kc, "%s format %d" % (want, fmt), back.hex(), pk.hex())
+    rpt.extra["ss58_reference_checks"] = n_addr
     rpt.extra["impl_relation_checks"] = n
     from harness.props.accessors_common import substrate_wrappers
     for what, inp, got, want in substrate_wrappers(rng):
